@@ -14,6 +14,8 @@ def main():
     ap.add_argument('--limit', type=int)
     a = ap.parse_args()
     os.environ.setdefault('PYTHONHASHSEED', '0')
+    if os.environ.get('MVF_REPO'):
+        sys.path.insert(0, os.environ['MVF_REPO'])
     from mvf import runner
     if a.replay:
         sys.exit(runner.replay(a.replay))
